@@ -339,10 +339,78 @@ def rule_5(ctx):
     ctx.floor(7, 'six wrappers + shared guard')
 
 
+def rule_6(ctx):
+    """The whole comparison table on representative values of every class, evaluated on the real comparison methods (dunder
+    dispatch, casts, blank conversion) by constant propagation, against ONE total order: numbers < texts (case-insensitive) <
+    FALSE < TRUE, a blank standing for 0 / "" / FALSE of its partner. Pairs with a text on the left and a non-text on the right
+    are the known finding of C09.3 (Text overrides are not type-aware) and are left to that rule."""
+    import operator as op_
+    from xlsa.guards import World
+    fm = ctx.mod('xlfunctions.func_xltypes')
+    anchor = fm.cls('ExcelType')
+
+    def N(v):
+        return Rec(cls=XLT + 'Number', value=v)
+
+    def T(v):
+        return Rec(cls=XLT + 'Text', value=v)
+
+    def B(v):
+        return Rec(cls=XLT + 'Boolean', value=v)
+    vals = [('-1', N(-1)), ('0', N(0)), ('2.5', N(2.5)), ('0.1+0.2', N(0.1 + 0.2)), ('0.3', N(0.3)),
+            ('""', T('')), ('"a"', T('a')), ('"A"', T('A')), ('"B"', T('B')), ('"1"', T('1')),
+            ('FALSE', B(False)), ('TRUE', B(True)), ('blank', Rec(cls=XLT + 'Blank', value=None))]
+    kind = {lbl: v.f['cls'].rpartition(':')[2] for lbl, v in vals}
+    byl = dict(vals)
+
+    def key(lbl, other):
+        if kind[lbl] == 'Blank':
+            return {'Blank': (0, 0), 'Number': (0, 0), 'Text': (1, ''), 'Boolean': (2, 0)}[kind[other]]
+        v = byl[lbl].f['value']
+        if kind[lbl] == 'Number':
+            return (0, v)
+        if kind[lbl] == 'Text':
+            return (1, v.upper())
+        return (2, int(v))
+    ops = {'<': op_.lt, '<=': op_.le, '=': op_.eq, '<>': op_.ne, '>': op_.gt, '>=': op_.ge}
+    py = {'<': '<', '<=': '<=', '=': '==', '<>': '!=', '>': '>', '>=': '>='}
+    world = World()
+    n = 0
+    for la, a in vals:
+        for lb, b in vals:
+            if kind[la] == 'Text' and kind[lb] != 'Text':
+                continue
+            for sym, fn in ops.items():
+                want = fn(key(la, lb), key(lb, la))
+                it = Interp(ctx.a, fm, {'a': a, 'b': b}, inline_pkg=True, world=world)
+                out = it.run([ast.parse(f'return a {py[sym]} b').body[0]])
+                if out.end == 'return' and isinstance(out.value, Rec) and out.value.f.get('cls') == XLT + 'Boolean':
+                    got = out.value.f.get('value')
+                elif out.end == 'return' and isinstance(out.value, bool):
+                    got = out.value
+                else:
+                    got = f'<{out.end} {out.value!r}>'
+                n += 1
+                ctx.expect(got == want, anchor, f'{la} {sym} {lb}',
+                           f'the comparison {la} {sym} {lb} gives {got!r}, expected {want!r} under the one total order (numbers < texts < FALSE < TRUE, '
+                           'texts case-insensitive, a blank is the 0 / "" / FALSE of its partner): exactly one of <, =, > may hold and <=, >=, <> '
+                           'must follow from them')
+    ctx.floor(700, 'comparison rows')
+
+
+def rule_7(ctx):
+    """The operands of a comparison are what the cells hold: a constant cell evaluates to the value class of its content."""
+    from . import corelemma
+    n = corelemma.rule_constant_cells(ctx)
+    ctx.floor(n, 'constant cell kinds')
+
+
 RULES = [
     ('C09.1', 'the six base comparisons agree', rule_1),
     ('C09.2', 'type precedence', rule_2),
     ('C09.3', 'overrides are complete and type-aware', rule_3),
     ('C09.4', 'blank conversions are total and terminate', rule_4),
     ('C09.5', 'comparison wrappers', rule_5),
+    ('C09.6', 'pairwise comparison table over representative values of every class', rule_6),
+    ('C09.7', 'constant cells evaluate to the value class of their content ("" is a text, not a blank)', rule_7),
 ]
